@@ -1620,14 +1620,14 @@ async fn emit_event(
     event_log: &EventLog,
 ) {
     #[cfg(feature = "verif")]
-    rip_kernel::verif::yield_async("session_emit:before_publish").await;
+    rip_kernel::verif::yield_async("session_emit:before_record").await;
     // Record before publishing: a subscriber subscribes first and snapshots the buffer second, so
     // a frame that is already on the live channel but not yet in the buffer would be lost to a
     // subscriber that attaches in between.
     let mut guard = buffer.lock().await;
     guard.push(event.clone());
     #[cfg(feature = "verif")]
-    rip_kernel::verif::yield_async("session_emit:after_publish").await;
+    rip_kernel::verif::yield_async("session_emit:between_record_and_publish").await;
     let _ = sender.send(event.clone());
     let _ = event_log.append(&event);
 }
